@@ -10,8 +10,8 @@ schema('droop.values.fixed.Fixed',
        fields={'_value': 'int'},
        cattrs={'precision': 'int', 'display': 'int', '_Fixed__scale': 'int', '_Fixed__scaled': 'int',
                '_Fixed__scaledd': 'int', '_Fixed__scaledr': 'int', '_Fixed__dfmt': 'str',
-               'epsilon': 'ref:droop.values.fixed.Fixed', 'exact': 'bool', 'quasi_exact': 'bool',
-               'name': 'str', 'info': 'str'})
+               'epsilon': 'ref:droop.values.fixed.Fixed', 'name': 'str', 'info': 'str'})
+# Fixed.exact / Fixed.quasi_exact are class-body constants (False); SCAN class-writes shows nothing assigns them
 
 
 @specfn
@@ -44,7 +44,6 @@ def flift(x):
 # ---------------------------------------------------------------------------------------------
 @contract('droop.values.fixed.Fixed.__init__', props=['C12'])
 def fixed_init(self: 'Fixed', arg: 'int|Fixed', setval: 'bool' = False):
-    requires(fixed_inv())
     if is_int(arg):
         ensures(self._value == ite(setval, arg, arg * fS()))
     else:
